@@ -72,7 +72,7 @@ CHECKS = {
          "DESIGN.md §C15"),
  "C01": ("circmon", "exploration",
          "runtime monitor: real compiled R1CS solved under honest and dishonest hint tables vs. reference Merkle spec; tiny-field exhaustive sub-runs",
-         "Executes the real compiled constraint systems (gadget harness at many depths/batches and the full circuit) with gnark's solver on PRNG batches aimed at every class of the quantifier, under the honest hint table and dishonest ones (non-boolean/wrong index digits); every verdict is compared with an independent statement of the property, every accept is re-derived by an independent constraint evaluator, and over the 47-element field inputs and all prover-chosen hint outputs are enumerated. Held on the executions produced; exhaustive only at the tiny scope.",
+         "Executes the real compiled constraint systems (gadget harness at many depths/batches and the full circuit) with gnark's solver on PRNG batches aimed at every class of the quantifier, under the honest hint table and dishonest ones (non-boolean/wrong index digits); every verdict is compared with an independent statement of the property, every accept is re-derived by an independent constraint evaluator, and over the 47-element field inputs and all prover-chosen hint outputs (of every registered hint function, discovered at run time) are enumerated. Held on the executions produced; exhaustive only at the tiny scope.",
          "Trusts iden3 Poseidon as reference hash, gnark's solver/compiler, and the structure audit's argument that prover freedom = secret inputs + NBits/InvZero outputs. Depths/batches/hint strategies not run are not covered.",
          "DESIGN.md §3.1, §C01"),
  "C02": ("circmon", "exploration",
